@@ -40,9 +40,9 @@ PAdd(a, b) == IF a.im = b.im THEN Ok(RAdd(a.v, b.v), a.im) ELSE Undefined
 PSub(a, b) == IF a.im = b.im THEN Ok(RSub(a.v, b.v), a.im) ELSE Undefined
 PPos(a) == Ok(a.v, a.im)
 PNeg(a) == Ok(RNeg(a.v), a.im)
-(* |x| of a real phase; for an imaginary phase only the magnitude is       *)
-(* specified (the flag is left free by the property)                       *)
-PAbs(a) == Ok(RAbs(a.v), a.im)
+(* |x|: the absolute value of a real or purely imaginary phase is the real *)
+(* number of cycles |x|  (|i x| = |x|)                                     *)
+PAbs(a) == Ok(RAbs(a.v), FALSE)
 (* multiplication by a dimensionless factor f (real or purely imaginary):  *)
 (* magnitudes multiply, flags combine by XOR, and i*i = -1                 *)
 PMul(a, f) == Ok(IF a.im /\ f.im THEN RNeg(RMul(a.v, f.v)) ELSE RMul(a.v, f.v),
